@@ -145,9 +145,6 @@ class Stmts(Exec):
             if isinstance(t, SetT): return self.alloc(st, t, z3.K(sort_of(t.elem), z3.BoolVal(False)))
         if isinstance(v.t, SetT) and v.t.elem == ANY and isinstance(t, SetT):
             return self.alloc(st, t, z3.K(sort_of(t.elem), z3.BoolVal(False)))
-        if v.t != t and not is_mutable(t) and v.ref is None and v.t not in (FUNC, EXC, MOD, CLS):
-            try: return coerce(v, t)
-            except Unsupported: return v
         return v
 
     def declared_local(self, st, name):
@@ -282,8 +279,33 @@ class Stmts(Exec):
         for x, c in self.ev(s.test, st):
             if _isR(c): out.append((x, c)); continue
             for y, val in self.branch(x, self.truth(x, c), 'if@%s' % s.lineno):
+                self.narrow(y, s.test, val)
                 out.extend(self.exec_block(s.body if val else s.orelse, y))
         return out
+
+    def narrow(self, st, test, val):
+        """Flow typing for Optional values: after `if x:` / `if x is not None:` (or the negations) the
+        name or self-attribute x is known not to be None on the corresponding branch."""
+        t = test
+        while isinstance(t, ast.UnaryOp) and isinstance(t.op, ast.Not): t = t.operand; val = not val
+        target = None; nonnull_when = None
+        if isinstance(t, ast.Compare) and len(t.ops) == 1 and isinstance(t.comparators[0], ast.Constant) and t.comparators[0].value is None:
+            if isinstance(t.ops[0], ast.IsNot): target = t.left; nonnull_when = True
+            elif isinstance(t.ops[0], ast.Is): target = t.left; nonnull_when = False
+        elif isinstance(t, (ast.Name, ast.Attribute)): target = t; nonnull_when = True
+        elif isinstance(t, ast.BoolOp) and isinstance(t.op, ast.And) and val:
+            for sub in t.values: self.narrow(st, sub, True)
+            return
+        if target is None or val != nonnull_when: return
+        if isinstance(target, ast.Name):
+            fr = st.frames[-1]; v = fr.get(target.id)
+            if isinstance(v, V) and isinstance(v.t, OptT): fr[target.id] = self.load_val(st, v.t.base, opt_val(v.t, v.z))
+        elif isinstance(target, ast.Attribute) and isinstance(target.value, ast.Name):
+            o = st.frames[-1].get(target.value.id)
+            if isinstance(o, V) and isinstance(o.t, ObjT):
+                name = self.mangle(st, target.attr)
+                v = self.getfield(st, o, name)
+                if v is not None and isinstance(v.t, OptT): self.setfield(st, o, name, self.load_val(st, v.t.base, opt_val(v.t, v.z)))
 
     def handler_names(self, h, st):
         if h.type is None: return ['BaseException']
